@@ -229,6 +229,17 @@ func TestLinkReal(t *testing.T) {
 					panic(fmt.Sprint("connect: ", err))
 				}
 				time.Sleep(30 * time.Millisecond) // let both sides attach (pub/bus/star send is best effort)
+				// PUB/SUB: the subscriber reads through a SUB context of its own (message and byte-slice API alike)
+				rxMsg, rxB := b.RecvMsg, b.Recv
+				if lp.name == "pubsub" {
+					cb, err := b.OpenContext()
+					if err != nil {
+						panic(err)
+					}
+					_ = cb.SetOption(mangos.OptionSubscribe, []byte{})
+					_ = cb.SetOption(mangos.OptionRecvDeadline, 5*time.Second)
+					rxMsg, rxB = cb.RecvMsg, cb.Recv
+				}
 				r.Emit("link", "tran", tr.name, "pat", lp.name, "limit", limit)
 				var held []heldSlice
 				defer func() {
@@ -333,7 +344,7 @@ func TestLinkReal(t *testing.T) {
 							r.Emit("lerr", "dir", "ab", "op", "send", "r", err)
 							return
 						}
-						gb, err := b.Recv()
+						gb, err := rxB()
 						if err != nil {
 							r.Emit("lerr", "dir", "ab", "op", "recv", "r", err)
 							return
@@ -346,7 +357,7 @@ func TestLinkReal(t *testing.T) {
 						r.Emit("lerr", "dir", "ab", "op", "send", "r", err)
 						return
 					}
-					got, err := b.RecvMsg()
+					got, err := rxMsg()
 					if err != nil {
 						r.Emit("lerr", "dir", "ab", "op", "recv", "r", err)
 						return
